@@ -51,7 +51,7 @@ func c20GoTypes() []c20GoType {
 
 var (
 	c20APITags  = []string{"attr", "rel", "rel,roles", "other", "", "rel,emails,inv", "rel,", "rel,a,b,c", "attr,x", "rel,roles,", "related", "relative,roles"}
-	c20JSONTags = []string{"a", "b", "", "id", "ID"}
+	c20JSONTags = []string{"a", "b", "", "id", "ID", "c,omitempty"}
 	c20IDs      = []string{"string+tags", "absent", "no-api-tag", "json-not-id", "no-json-tag", "int+tags", "string+tags+dash", "string+tags+declared-last", "named-string-type+tags"}
 )
 
@@ -376,7 +376,7 @@ func c20Three(x *mc.Exec) {
 func init() {
 	Register(&Prop{
 		ID: "C20",
-		Rule: "Engine A, all choices Full: ALL struct shapes built at run time with reflect.StructOf: 9 ID-field forms (of a named string type, string with tags, absent, no api tag, json tag != id, no json tag, int, json:\"id,omitempty\", declared after the other fields) x 0..2 further fields, each (Go type x api tag x json tag) from 19 Go types (supported, unsupported, pointers, slices, map, struct, named types with a supported underlying kind) x 12 api tags (attr, rel, 'rel,roles', 'rel,emails,inv', none, 'rel,', 'rel,a,b,c', other, 'attr,x', 'rel,roles,', related, 'relative,roles') x 5 json tags (a, b, empty, id, ID): every single field (600), all pairs over the 7x5x3 interesting sub-alphabet in quick and over the full alphabet in thorough (360000 x 7), plus all triples over a 4x4x3 sub-alphabet in thorough; each by value and by pointer. plus every accepted shape of 1..2 fields over a 4x4x2 sub-alphabet judged again after 6 kinds of edits made through the Type value and the maps obtained from an earlier wrapper of the same struct type. Oracle: an independent tag reader predicts the type; if Check accepts: BuildType/Wrap/New/Copy/Type.New/Set+Get of id and of every declared field with a value of its Go type/MarshalResource succeed and built type = predicted type = what the wrapper reports; if Check rejects: BuildType errors and Wrap panics. Non-trivial = accepted shape",
+		Rule: "Engine A, all choices Full: ALL struct shapes built at run time with reflect.StructOf: 9 ID-field forms (of a named string type, string with tags, absent, no api tag, json tag != id, no json tag, int, json:\"id,omitempty\", declared after the other fields) x 0..2 further fields, each (Go type x api tag x json tag) from 19 Go types (supported, unsupported, pointers, slices, map, struct, named types with a supported underlying kind) x 12 api tags (attr, rel, 'rel,roles', 'rel,emails,inv', none, 'rel,', 'rel,a,b,c', other, 'attr,x', 'rel,roles,', related, 'relative,roles') x 6 json tags (a, b, empty, id, ID, 'c,omitempty'): every single field (600), all pairs over the 7x5x3 interesting sub-alphabet in quick and over the full alphabet in thorough (360000 x 7), plus all triples over a 4x4x3 sub-alphabet in thorough; each by value and by pointer. plus every accepted shape of 1..2 fields over a 4x4x2 sub-alphabet judged again after 6 kinds of edits made through the Type value and the maps obtained from an earlier wrapper of the same struct type. Oracle: an independent tag reader predicts the type; if Check accepts: BuildType/Wrap/New/Copy/Type.New/Set+Get of id and of every declared field with a value of its Go type/MarshalResource succeed and built type = predicted type = what the wrapper reports; if Check rejects: BuildType errors and Wrap panics. Non-trivial = accepted shape",
 		Harnesses: []Harness{
 			{Name: "C20/shapes", Body: c20Shapes},
 			{Name: "C20/after-type-edits", Body: c20AfterEdits},
